@@ -38,7 +38,7 @@ MAGNETS = ["Cuboid", "Cylinder", "Sphere", "Tetrahedron", "TriangularMesh", "Cyl
 
 
 def budget(tier):
-    return {"examples": 800 if tier == "quick" else 20000, "shrink": False, "shards": 48 if tier == "quick" else 128}
+    return {"examples": 800 if tier == "quick" else 20000, "shrink": False, "shards": 96 if tier == "quick" else 256}
 
 
 @st.composite
@@ -55,7 +55,8 @@ def case_strategy(draw):
         if len(spec["vertices"]) < 4:
             spec["vertices"] = [[0.0, 0.0, 0.0], [0.8, 0.1, 0.0], [0.5, 0.7, 0.2], [0.0, 0.0, 0.0]]
     if cls == "TriangularMesh":
-        spec.update(draw(gen.mesh_geometry(L=1.0, kinds=("box", "hull", "prism"))))
+        # (flux through a boundary-cutting surface costs ~1e5..1e6 evaluations x number of faces: few-faced meshes there)
+        spec.update(draw(gen.mesh_geometry(L=1.0, kinds=("box", "box", "prism") if mode == "flux" else ("box", "hull", "prism"))))
     body = geom.body_from_spec(spec)
     L = body.L
     place = draw(st.sampled_from(["cut", "cut", "cut", "inside", "free", "enclose"]))
